@@ -194,14 +194,25 @@ static void body_def_plans(Tape &t, Ctx &c) {
 	// one case in three is aimed at the deepest resume state of levels 1-3: a block that ends because the token buffer of a *small* level buffer is
 	// full (match table partly replayed), flushed through small output chunks while the caller re-cuts its remaining input into 1..8-byte pieces
 	bool deep = t.range(0, 2) == 0;
-	if (deep) dg::gen(t, segs, 150000, nullptr, (int) t.pick<uint32_t>({3, 3, 6, 4})); else dg::gen(t, segs, 150000);
+	// ... and half of those at the token encoders' overflow exits: skewed data whose blocks contain tokens of 30..48 bits (long codes in all three
+	// alphabets, far copies), written through output chunks that end in the middle of a group of tokens, on the encoders the build host does not select
+	bool longtok = deep && t.coin();
+	if (longtok) { segs.clear(); segs.push_back(dg::Seg{10, (size_t) t.range(30000, 120000), t.bits64(), 1, 0}); }
+	else if (deep) dg::gen(t, segs, 150000, nullptr, (int) t.pick<uint32_t>({3, 3, 6, 4})); else dg::gen(t, segs, 150000);
 	std::vector<uint8_t> data;
 	dg::expand(segs, data);
 	igz::DefOpts o;
 	const char *lv;
 	decode_def(t, o, lv);
 	igzc::StreamPlan p = igzc::decode_plan(t, data.size());
-	if (deep) {
+	if (longtok) {
+		o.level = (int) t.range(1, 3);
+		o.lbuf_size = igz::lvl_buf_size(o.level, (int) t.range(0, 3));
+		lv = cpu::LEVEL_NAMES[t.pick<uint32_t>({6, 6, 0, 1, 4, 11})];
+		p.out.mode = 1; p.out.param = 40 + t.raw() % 2960;
+		p.in.mode = (int) t.pick<uint32_t>({0, 0, 4, 1}); if (p.in.mode == 1 && p.in.param < 4096) p.in.param = 65536;
+		p.reoffer_limit = 0;
+	} else if (deep) {
 		o.level = (int) t.pick<uint32_t>({3, 3, 1, 2});
 		o.lbuf_size = igz::lvl_buf_size(o.level, (int) t.range(0, 1)) + (uint32_t) t.range(0, 63);
 		p.out.mode = 1; p.out.param = (uint32_t) t.pick<uint32_t>({15, 16, 31, 64, 257, 15});
@@ -224,8 +235,113 @@ static void body_def_plans(Tape &t, Ctx &c) {
 	c.nontrivial = ncalls >= 3;
 	c.label(fmt("level=%d", o.level));
 	if (p.reoffer_limit) c.label("re-cut-after-full-output");
-	if (deep) c.label("deep:small-level-buffer+small-output+tiny-reoffer");
+	if (longtok) c.label("deep:long-tokens+output-chunk-ends-mid-group");
+	else if (deep) c.label("deep:small-level-buffer+small-output+tiny-reoffer");
 	if (c.want_sample) c.sample = fmt("{\"data\":%s,\"level\":%d,\"gzip_flag\":%d,\"cpu\":\"%s\",\"in\":\"%s\",\"out\":\"%s\",\"flush_mode\":%d,\"reoffer\":%u,\"calls\":%llu}", dg::describe(segs).c_str(), o.level, o.gzip_flag, lv, p.in.text().c_str(), p.out.text().c_str(), p.flush_mode, p.reoffer_limit, (unsigned long long) ncalls);
+}
+
+// ------------------------------------------------------------------------------------------------ the token encoders of levels 1-3
+// flush_icf_block() hands the queued tokens of a block to encode_deflate_icf() with whatever output space the caller offered and calls it again with
+// the next chunk: the encoder's "out of space" exits decide where it resumes.  Here every variant is driven directly with generated tokens and tables
+// (rare long codes in all three alphabets, bursts of far matches: single tokens of up to 48 bits) through generated piece sizes, each piece ending at
+// a guard page; the gathered bits must equal what the plain C encoder writes into one large buffer.
+extern "C" {
+#include "encode_df.h"
+#include "bitbuf2.h"
+struct deflate_icf *encode_deflate_icf_base(struct deflate_icf *, struct deflate_icf *, struct BitBuf2 *, struct hufftables_icf *);
+struct deflate_icf *encode_deflate_icf_04(struct deflate_icf *, struct deflate_icf *, struct BitBuf2 *, struct hufftables_icf *);
+struct deflate_icf *encode_deflate_icf_06(struct deflate_icf *, struct deflate_icf *, struct BitBuf2 *, struct hufftables_icf *);
+}
+static struct hufftables_icf g_icf_tables;
+static void body_token_encoder(Tape &t, Ctx &c) {
+	typedef struct deflate_icf *(*efn)(struct deflate_icf *, struct deflate_icf *, struct BitBuf2 *, struct hufftables_icf *);
+	static const struct { const char *n; efn f; const char *lv; } V[] = {{"encode_deflate_icf_base", encode_deflate_icf_base, "base"}, {"encode_deflate_icf_04", encode_deflate_icf_04, "avx2"}, {"encode_deflate_icf_06", encode_deflate_icf_06, "avx512"}};
+	int vi = (int) t.range(0, 2 + cpu::N_LEVELS);
+	efn fn; std::string vname;
+	if (vi < 3) { cpu::Config cfg; cpu::level_config(V[vi].lv, cfg); if (!cpu::host_can_run(cfg)) throw Skip("host cannot execute variant"); fn = V[vi].f; vname = V[vi].n; }
+	else { const char *lv = cpu::LEVEL_NAMES[vi - 3]; kern::use_level(lv); fn = encode_deflate_icf; vname = std::string("encode_deflate_icf@") + lv; }
+	size_t ntok = (size_t) (t.coin() ? t.range(1, 200) : t.range(200, 6000));
+	uint64_t seed = t.bits64();
+	int far_every = (int) t.pick<uint32_t>({40, 400, 8, 2000});
+	std::vector<struct deflate_icf> tok(ntok + 1);
+	static struct isal_mod_hist hist;
+	memset(&hist, 0, sizeof hist);
+	int burst = 0;
+	for (size_t i = 0; i < ntok; i++) {
+		uint64_t h = mix64(seed + i * 0x9E3779B9ull);
+		struct deflate_icf k;
+		memset(&k, 0, sizeof k);
+		if (burst == 0 && h % far_every == 0) burst = 1 + (int) ((h >> 50) % 8);
+		if (burst > 0) { // match: rare long length, rare far distance
+			burst--;
+			unsigned len = (h >> 8) % 3 == 0 ? 3 + (h >> 12) % 8 : 3 + (h >> 12) % 256;
+			unsigned ds = (h >> 24) % 4 == 0 ? (unsigned) ((h >> 28) % 30) : 26 + (unsigned) ((h >> 28) % 4);
+			k.lit_len = 254 + len; k.lit_dist = ds;
+			unsigned eb = ds < 4 ? 0 : (ds - 2) / 2;
+			k.dist_extra = (uint32_t) ((h >> 36) & ((1u << eb) - 1));
+			hist.ll_hist[k.lit_len]++; hist.d_hist[ds]++;
+		} else {
+			uint8_t b1 = (uint8_t) (mix64(seed + 77 * __builtin_ctzll(h | (1ull << 20))) >> 11);
+			k.lit_len = b1; k.lit_dist = NULL_DIST_SYM;
+			hist.ll_hist[b1]++;
+			if ((h >> 40) % 3 == 0) { uint8_t b2 = (uint8_t) (mix64(seed + 79 * __builtin_ctzll((h >> 3) | (1ull << 20))) >> 11); k.lit_dist = LIT_START + b2; hist.ll_hist[b2]++; }
+		}
+		tok[i] = k;
+	}
+	memset(&tok[ntok], 0, sizeof tok[ntok]);
+	tok[ntok].lit_len = 256; tok[ntok].lit_dist = NULL_DIST_SYM;
+	hist.ll_hist[256]++;
+	size_t P = (size_t) (t.coin() ? t.range(16, 300) : t.range(16, 3000));
+	size_t tiny = t.range(0, 5) == 0 ? (size_t) t.range(1, 15) : 0; // as isal_deflate_int does it: a piece of 1..15 bytes first (with fewer than 8 nothing may be written), then the 16-byte staging buffer
+	c.fpmix(vi); c.fpmix(ntok); c.fpmix(seed); c.fpmix(far_every); c.fpmix(P); c.fpmix(tiny);
+	// tables (the library's own builder; the header bits go to a scratch buffer)
+	std::vector<uint8_t> hdrbuf(4096);
+	struct BitBuf2 hb;
+	memset(&hb, 0, sizeof hb);
+	set_buf(&hb, hdrbuf.data(), (unsigned) hdrbuf.size());
+	create_hufftables_icf(&hb, &g_icf_tables, &hist, 1);
+	// reference: the plain C encoder into one large buffer
+	std::vector<uint8_t> ref((ntok + 2) * 8 + 64);
+	struct BitBuf2 rb;
+	memset(&rb, 0, sizeof rb);
+	set_buf(&rb, ref.data(), (unsigned) ref.size());
+	struct deflate_icf *re = encode_deflate_icf_base(tok.data(), tok.data() + ntok + 1, &rb, &g_icf_tables);
+	if (re != tok.data() + ntok + 1) throw OracleBug("reference encoder stopped early in a large buffer");
+	uint64_t ref_bits = (uint64_t) buffer_used(&rb) * 8 + rb.m_bit_count;
+	flush(&rb);
+	size_t ref_len = buffer_used(&rb);
+	// the variant, piece by piece
+	std::vector<uint8_t> got;
+	struct BitBuf2 bb;
+	memset(&bb, 0, sizeof bb);
+	struct deflate_icf *next = tok.data(), *end = tok.data() + ntok + 1;
+	int stalls = 0;
+	uint64_t pieces = 0;
+	std::string where = tiny ? fmt("%s, %zu tokens (a far-match burst every ~%d tokens), pieces alternating %zu and 16 bytes", vname.c_str(), ntok, far_every, tiny) : fmt("%s, %zu tokens (a far-match burst every ~%d tokens), pieces of %zu bytes", vname.c_str(), ntok, far_every, P);
+	while (next < end) {
+		size_t Pn = tiny ? ((pieces & 1) ? 16 : tiny) : P;
+		guard::Buf pc = guard::alloc(Pn, guard::END, "output piece");
+		set_buf(&bb, pc.p, (unsigned) Pn);
+		struct deflate_icf *nn = nullptr;
+		guard::Fault f = guard::call([&] { nn = fn(next, end, &bb, &g_icf_tables); });
+		PBT_CHECK(!f.faulted, "stream-independence:token-encoder:fault", "%s, piece %llu: %s", where.c_str(), (unsigned long long) pieces, f.describe().c_str());
+		size_t used = buffer_used(&bb);
+		PBT_CHECK(used <= Pn && guard::canaries_ok(pc), "stream-independence:token-encoder:overrun", "%s: piece %llu of %zu bytes reports %zu bytes used", where.c_str(), (unsigned long long) pieces, Pn, used);
+		PBT_CHECK(nn >= next && nn <= end, "stream-independence:token-encoder:resume", "%s: returned token pointer outside [next, end]", where.c_str());
+		got.insert(got.end(), pc.p, pc.p + used);
+		if (nn == next && used == 0) { PBT_CHECK(++stalls < 3, "stream-independence:token-encoder:stall", "%s: no token taken and no byte written in three consecutive pieces", where.c_str()); } else stalls = 0;
+		next = nn;
+		guard::retire(pc);
+		pieces++;
+	}
+	uint64_t got_bits = (uint64_t) got.size() * 8 + bb.m_bit_count;
+	{ guard::Buf pc = guard::alloc(16, guard::END, "output piece"); set_buf(&bb, pc.p, 16); flush(&bb); got.insert(got.end(), pc.p, pc.p + buffer_used(&bb)); }
+	PBT_CHECK(got_bits == ref_bits && got.size() == ref_len && memcmp(got.data(), ref.data(), ref_len) == 0, "stream-independence:token-encoder:bits",
+	          "%s: %llu bits gathered from %llu pieces, the plain C encoder writes %llu bits into one buffer (first differing byte %zu)", where.c_str(), (unsigned long long) got_bits, (unsigned long long) pieces, (unsigned long long) ref_bits,
+	          (size_t) (std::mismatch(got.begin(), got.begin() + std::min(got.size(), ref_len), ref.begin()).first - got.begin()));
+	c.nontrivial = pieces >= 2;
+	c.label(vi < 3 ? vname : vname + "->" + cpu::resolved_name("encode_deflate_icf"));
+	if (c.want_sample) c.sample = fmt("{\"variant\":%s,\"tokens\":%zu,\"piece\":%zu,\"pieces\":%llu,\"bits\":%llu}", jstr(vname).c_str(), ntok, P, (unsigned long long) pieces, (unsigned long long) ref_bits);
 }
 
 // ------------------------------------------------------------------------------------------------ decompression
@@ -406,7 +522,8 @@ int main(int argc, char **argv) {
 		{"deflate_all_splits", body_def_splits, 24, 2, nullptr, "one small input (<= 600 bytes): every single split point of the input and, separately, of the output; result decodes (zlib + reference) to the input; non-trivial: >= 3 bytes"},
 		{"deflate_chunk_pairs", body_def_pairs, 24, 1, nullptr, "all pairs (input chunk, output chunk) from {0,1,2,7,8,9,15,16,17,31,32,33,255,256,257,328,329,big} incl. zero-length calls"},
 		{"deflate_history", body_def_history, 48, 12, nullptr, "generated histories: refill before drain, zero-length and 1-byte buffers, flush mode changed every call, late end_of_stream, fresh memory for every chunk; then finish; every call satisfies the counter invariants, finishing calls must make progress, output decodes to the concatenated input; non-trivial: >= 3 calls with a chunk boundary inside the data"},
-		{"deflate_plans", body_def_plans, 64, 44, nullptr, "inputs up to 150 KB x whole-stream call plans: chunkings of both sides (all, constant, random, boundary set, small/medium/rest), refill before drain, late end_of_stream, flush mode per call, chunk placed end- or start-flush at a guard page, and a caller that after every call that filled its output chunk offers only 1..64 bytes of the remaining input; counters, progress, decode; non-trivial: >= 3 calls"},
+		{"deflate_plans", body_def_plans, 64, 70, nullptr, "inputs up to 150 KB x whole-stream call plans: chunkings of both sides (all, constant, random, boundary set, small/medium/rest), refill before drain, late end_of_stream, flush mode per call, chunk placed end- or start-flush at a guard page, and a caller that after every call that filled its output chunk offers only 1..64 bytes of the remaining input; counters, progress, decode; non-trivial: >= 3 calls"},
+		{"token_encoder_slicing", body_token_encoder, 16, 100, nullptr, "encode_deflate_icf{_base,_04,_06, dispatched under every cpu level} driven directly: generated tokens (rare long codes, bursts of far matches, packed literal pairs) and the library's own tables, output pieces of 16..3000 bytes each ending at a guard page; the bits gathered over all pieces == the plain C encoder's bits in one buffer, no write outside a piece, progress; non-trivial: >= 2 pieces"},
 		{"inflate_all_splits", body_inf_splits, 64, 3, nullptr, "one small valid stream (grammar/zlib/ISA-L made, raw/gzip with optional fields/zlib): every single split point of input and of output: same bytes, final state, status and crc as isal_inflate_stateless; non-trivial: header with optional fields or a match"},
 		{"inflate_chunk_pairs", body_inf_pairs, 64, 1, nullptr, "all (input chunk, output chunk) pairs from the boundary set incl. zero-length calls, compared with one-shot"},
 		{"inflate_history", body_inf_history, 96, 16, nullptr, "generated schedules (constant, random, boundary-set with empty calls) on valid and corrupted streams: valid -> identical to one-shot; invalid -> never reports completion; non-trivial: >= 3 calls"},
